@@ -55,6 +55,28 @@ var properties = map[string]*Property{
 			"composition with the rest of the program (paper induction, DESIGN.md 4.6)",
 		},
 	},
+	"C06": {
+		ID:    "C06",
+		Title: "Function calls and closures behave as in Go regardless of frame recycling",
+		Units: []Unit{
+			{Kind: "funcs", Pkg: "fast", Funcs: []string{"(*Env).freeEnv", "(*Env).MarkUsedByClosure", "newEnv", "NewEnv", "(*Env).FreeEnv", "(*Env).freeEnv4Func"}},
+		},
+		NotCovered: []string{
+			"first sentence of the property (results of calls equal compiled Go): call*.go / func*ret*.go specialisations are not under contract",
+			"that every function-creating closure marks its frame / frees it exactly once (typestate over func0ret0..func2ret0)",
+		},
+	},
+	"C14": {
+		ID:    "C14",
+		Title: "REPL-style evaluation, one top-level statement at a time, matches in-order Go",
+		Units: []Unit{
+			{Kind: "funcs", Pkg: "fast", Funcs: []string{"(*CompBinds).NewBind", "(*Comp).NewBind", "(*Interp).prepareEnv", "(*Interp).CompileAst", "lemma:replRound"}},
+		},
+		NotCovered: []string{
+			"first sentence of the property (each evaluation sees the effects of earlier ones; results equal compiled Go): whole-program",
+			"that Comp.Compile reaches NewBind only through Comp.NewBind and does not otherwise touch IntBindMax or the top-level Env.Ints (the hypotheses of lemma replRound tie the three contracts together; the tie itself is a paper step)",
+		},
+	},
 	"C37": {
 		ID:    "C37",
 		Title: "REPL command lookup resolves unique prefixes and reports ambiguity",
